@@ -205,14 +205,37 @@ func init() {
 			cn := c.MustFn("(*PostingsIterator).currChunkNext")
 			key := fnName(cn) + "/loc-skip"
 			okSkip := false
-			for _, ci := range methodCallsOnField(cn, "locReader") {
-				if ci.Common().StaticCallee().Name() != "SkipBytes" {
-					continue
+			skipsPrefix := func(f *ssa.Function) (ssa.CallInstruction, bool) {
+				for _, ci := range methodCallsOnField(f, "locReader") {
+					if ci.Common().StaticCallee().Name() != "SkipBytes" {
+						continue
+					}
+					arg := stripConv(ci.Common().Args[1])
+					if ex, ok := arg.(*ssa.Extract); ok && ex.Index == 0 {
+						if call, ok := ex.Tuple.(*ssa.Call); ok && call.Call.StaticCallee() != nil && call.Call.StaticCallee().Name() == "readUvarint" && exprSig(call.Call.Args[0], 0) == ".locReader" {
+							return ci, true
+						}
+					}
 				}
-				arg := stripConv(ci.Common().Args[1])
-				if ex, ok := arg.(*ssa.Extract); ok && ex.Index == 0 {
-					if call, ok := ex.Tuple.(*ssa.Call); ok && call.Call.StaticCallee() != nil && call.Call.StaticCallee().Name() == "readUvarint" && exprSig(call.Call.Args[0], 0) == ".locReader" {
-						okSkip = flagTrueDominates(cn, "includeLocs", ci.Block())
+				return nil, false
+			}
+			if ci, ok := skipsPrefix(cn); ok {
+				okSkip = flagTrueDominates(cn, "includeLocs", ci.Block())
+			} else {
+				// the skip extracted into a method of the iterator, called under the flag
+				for _, b := range cn.Blocks {
+					for _, ins := range b.Instrs {
+						hc, isCall := ins.(ssa.CallInstruction)
+						if !isCall {
+							continue
+						}
+						sc := hc.Common().StaticCallee()
+						if sc == nil || !c.inRoot(sc) || sc.Blocks == nil || len(hc.Common().Args) == 0 || hc.Common().Args[0] != ssa.Value(cn.Params[0]) {
+							continue
+						}
+						if ci, ok := skipsPrefix(sc); ok && (flagTrueDominates(cn, "includeLocs", b) || flagTrueDominates(sc, "includeLocs", ci.Block())) {
+							okSkip = true
+						}
 					}
 				}
 			}
